@@ -5,10 +5,20 @@
 package dns
 
 // TTL arithmetic never wraps around: a value that does not fit 32 bits is rejected, not reduced modulo 2^64
-//@ func stringToTTL [C06 C07]
+// TTL text (BIND units): per character, a digit extends the pending number, a unit letter adds the pending
+// number times its weight (s 1, m 60, h 3600, d 86400, w 604800) to the total; the result is total + pending, and
+// a value is refused only when it exceeds 2^32-1
+//@ func stringToTTL [C05 C06 C07]
 //@   opt nowrap
 //@   ensures ok: ret1 ==> ret0 <= 4294967295
 //@   loop 1 invariant s <= 4294967295 && i <= 4294967295
+//@   ghost sh at "switch c {" s
+//@   ghost ih at "switch c {" i
+//@   assert at "if s > math.MaxUint32 || i > math.MaxUint32 {" unit: ((c == 's' || c == 'S') ==> s == sh + ih && i == 0) && ((c == 'm' || c == 'M') ==> s == sh + ih * 60 && i == 0) && ((c == 'h' || c == 'H') ==> s == sh + ih * 3600 && i == 0) && ((c == 'd' || c == 'D') ==> s == sh + ih * 86400 && i == 0) && ((c == 'w' || c == 'W') ==> s == sh + ih * 604800 && i == 0)
+//@   assert at "if s > math.MaxUint32 || i > math.MaxUint32 {" digit: c >= '0' && c <= '9' ==> s == sh && i == ih * 10 + (c - '0')
+//@   assert at "return 0, false@2" partial: s > 4294967295 || i > 4294967295
+//@   assert at "return 0, false@3" toolarge: s + i > 4294967295
+//@   exit value: ret1 ==> ret0 == s + i
 //@   pure
 
 // name completion (RFC 1035 5.1): "@" is the origin, absolute names stay, relative names get the origin
@@ -99,6 +109,15 @@ package dns
 //@   requires c != nil
 //@   requires lexinv: (c.l.value == 1 ==> len(c.l.token) > 0) && (c.cachedL != nil ==> (c.cachedL.value == 1 ==> len(c.cachedL.token) > 0))
 //@   loop * invariant (c.l.value == 1 ==> len(c.l.token) > 0) && (c.cachedL != nil ==> (c.cachedL.value == 1 ==> len(c.cachedL.token) > 0))
+// a derived length octet equals the number of octets of the field it prefixes (two hex digits per octet; a field
+// the octet cannot count, 256 octets or more, is outside the record type)
+//@ func (*NSEC3).parse [C05 C07]
+//@   stored at "rr.SaltLength = " saltlen: len(l.token) < 512 ==> value == len(l.token) / 2 [C05]
+//@ func (*NSEC3PARAM).parse [C05 C07]
+//@   stored at "rr.SaltLength = " saltlen: len(l.token) < 512 ==> value == len(l.token) / 2 [C05]
+//@ func (*HIP).parse [C05 C07]
+//@   stored at "rr.HitLength = " hitlen: len(rr.Hit) < 512 ==> value == len(rr.Hit) / 2 [C05]
+//@   stored at "rr.PublicKeyLength = " pklen: len(decodedPK) < 65536 ==> value == len(decodedPK) [C05]
 //@ func (*EUI48).parse [C07]
 //@   loop 1 invariant 0 <= i && i % 2 == 0 && dash * 2 == i
 //@ func (*EUI64).parse [C07]
@@ -168,7 +187,9 @@ package dns
 //@ func locCheckEast [C07]
 //@ func stringToNodeID [C07]
 //@ func parseAddrHostUnion [C07]
+// a $GENERATE modifier pads to at most 255 characters, so the text a short line expands to stays bounded
 //@ func modToPrintf [C07 C06]
+//@   exit width: len(ret2) == 0 ==> 0 <= width && width <= 255 [C07]
 //@ func svcbStringToKey [C07]
 //@ func svcbParamToStr [C07 C05]
 //@ func svcbParseParam [C07]
